@@ -21,7 +21,7 @@ NAMES = ["", "I", "IA", "IB", "IAA", "a", "a.b", "m", "z", "é", "Ω", "Í", "\
 # names with a blank: `Element.__init__` files a *docless* one as the docstring and leaves `__name__` None, so the final
 # pair is (None, module); with a docstring the name is kept.  (NAMES has near misses: a tab, a no-break space.)
 BLANK_NAMES = ["a b", " ", "I A", "IA ", "é Ω", "a b c", "  "]
-MODS = ["", "m", "m.n", "n", "zope.interface.declarations", "é", "a", "z", "M"]
+MODS = ["", "m", "m.n", "n", "zope.interface.declarations", "é", "a", "z", "M", "?", "\u65e5", "\u672c"]
 OPS = ["lt", "le", "gt", "ge", "eq", "ne"]
 SWAP = dict(lt="gt", le="ge", gt="lt", ge="le", eq="eq", ne="ne")
 LIB = "IMA"           # operands whose comparison methods are the library's: interface, class specification, None-named interface
